@@ -5,6 +5,7 @@ From V.c13 Require Import C13Spec C13Model.
 From V.c17 Require Import C17Spec C17Model C17RbspProofs C17WriterProofs C17EbspProofs.
 From V.c17 Require Import C17TypedModel C17BitProofs C17TypedProofs C17FswProofs C17ComposeProofs.
 From V.c17 Require Import C17HistModel C17HistProofs C17CanonProofs C17TieModel C17TieProofs.
+From V.c17 Require Import C17NaluModel C17NaluProofs.
 
 (* the 0xFF-run code of payload type (Go uint accumulator) and payload size (uint32
    accumulator) decodes to the value and leaves the rest of the input untouched: every value
@@ -295,3 +296,80 @@ Example C17_decoders_tie_hyp :
   tc_decode_go [96; 0; 0; 161] = tc_decode [96; 0; 0; 161] /\
   pt_decode_go None 0 [8; 128] = Err /\ pt_decode None 0 [8; 128] = Err.
 Proof. repeat split; vm_compute; reflexivity. Qed.
+
+(* ---------------------------------------------------------------- the written NAL unit through avc/hevc.ParseSEINalu *)
+(* C17NaluModel: sei.DecodeSEIMessage (dispatch on codec and type), avc.ParseSEINalu (header & 0x1f = 6,
+   picture timing decoded with the lengths of the SPS' VclHrdParameters, else NalHrdParameters, cut to a
+   byte) and hevc.ParseSEINalu (two header bytes, type 39 | 40, fillHEVCPicTimingParams).
+   For EVERY non-empty written list (any types, sizes, payload bytes) and every valid header the wrappers
+   run their decoders on exactly the written (type, payload) pairs, in order, and report no
+   trailing-bits error: the outcome is that of the per-message decoders (first error ends the call). *)
+Theorem C17_nalu_written :
+  (forall par h msgs, N.land h 31 = 6 -> msgs <> [] -> msgs_ok msgs = true ->
+     parse_sei_nalu_avc par (h :: write_sei_messages msgs) = pres_of (decode_all (decode_avc par) (observed msgs))) /\
+  (forall par h1 h2 msgs, (N.land (h1 / 2) 63 = 39 \/ N.land (h1 / 2) 63 = 40) -> msgs <> [] -> msgs_ok msgs = true ->
+     parse_sei_nalu_hevc par (h1 :: h2 :: write_sei_messages msgs) = pres_of (decode_all (decode_hevc par) (observed msgs))).
+Proof. exact nalu_written. Qed.
+Print Assumptions C17_nalu_written.
+
+(* THE round trip through the wrappers, mixed lists: canonical typed messages of the path (AVC: picture
+   timing carrying the external lengths of the SPS, with or without HRD; HEVC: time code, mastering
+   display colour volume, content light level), pass-through messages (any value a pass-through decoder
+   returned: registered / CEA-608 / unregistered user data, HEVC picture timing under a VUI) and general
+   data of any other type, in any order: written with a valid header and parsed, the SAME message values
+   come back (typed messages equal field by field, pass-through and general messages with their payload) *)
+Theorem C17_nalu_roundtrip :
+  (forall par h ms, N.land h 31 = 6 -> ms <> [] -> Forall (sm_wf_avc par) ms ->
+     parse_sei_nalu_avc par (h :: write_sei_messages (map sm_msg ms)) = POk ms) /\
+  (forall par h1 h2 ms, (N.land (h1 / 2) 63 = 39 \/ N.land (h1 / 2) 63 = 40) -> ms <> [] -> Forall (sm_wf_hevc par) ms ->
+     parse_sei_nalu_hevc par (h1 :: h2 :: write_sei_messages (map sm_msg ms)) = POk ms).
+Proof. exact nalu_roundtrip. Qed.
+Print Assumptions C17_nalu_roundtrip.
+
+(* hypotheses satisfiable: AVC, SPS with Vcl HRD lengths (279 = 256 + 23 is cut to the byte 23), a picture
+   timing message with HRD delays, CEA-608 user data and general data of type 300 *)
+Example C17_nalu_roundtrip_avc_hyp :
+  let par := APVui (Some (279, 15, 5)) (Some (1, 1, 1)) in
+  let pt := mkPT (Some (mkHrd 1000 2000 0 23 15)) 5 3
+                 [mkClockAvc true 1 false 4 true false true 200 false 5 false 6 false 7 5 (-3)%Z; clock_avc_zero 5] in
+  let cea := mkPass (KCea608 [148; 44] []) [181; 0; 49; 71; 65; 57; 52; 3; 193; 255; 252; 148; 44; 255] in
+  let ms := [MTyped (TPicTiming pt); MPass cea; MRaw 300 [0; 0; 3]] in
+  N.land 102 31 = 6 /\ Forall (sm_wf_avc par) ms /\
+  parse_sei_nalu_avc par (102 :: write_sei_messages (map sm_msg ms)) = POk ms.
+Proof.
+  cbv zeta. split; [reflexivity|]. split; [|vm_compute; reflexivity].
+  repeat apply Forall_cons; try apply Forall_nil.
+  - cbn [sm_wf_avc]. repeat split; vm_compute; reflexivity.
+  - cbn [sm_wf_avc]. split; [vm_compute; reflexivity|].
+    exists [181; 0; 49; 71; 65; 57; 52; 3; 193; 255; 252; 148; 44; 255]. left. vm_compute. reflexivity.
+  - cbn [sm_wf_avc]. split; [vm_compute; reflexivity|]. repeat split; discriminate.
+Qed.
+
+(* HEVC, suffix SEI header (80 = 40 * 2), VUI with HRD: a time code, a picture timing pass-through
+   message, content light level, unregistered user data *)
+Example C17_nalu_roundtrip_hevc_hyp :
+  let par := HPVui true (Some (mkHevcHrd true false false false 7 7 0 0)) in
+  let pth := mkPass KPicTimingHevc [16; 1; 2; 128] in
+  let un := mkPass (KUnregistered [1; 2; 3; 4; 5; 6; 7; 8; 9; 10; 11; 12; 13; 14; 15; 16])
+                   [1; 2; 3; 4; 5; 6; 7; 8; 9; 10; 11; 12; 13; 14; 15; 16; 0; 0] in
+  let ms := [MTyped (TTimeCode [mkClock true false 0 false false false 0 false 0 false 0 false 0 5 1]);
+             MPass pth; MTyped (TCll (mkCll 1000 65535)); MPass un] in
+  Forall (sm_wf_hevc par) ms /\
+  parse_sei_nalu_hevc par (80 :: 1 :: write_sei_messages (map sm_msg ms)) = POk ms.
+Proof.
+  cbv zeta. split; [|vm_compute; reflexivity].
+  repeat apply Forall_cons; try apply Forall_nil.
+  - vm_compute. reflexivity.
+  - cbn [sm_wf_hevc]. split; [vm_compute; reflexivity|].
+    exists [16; 1; 2; 128]. right. right. eexists. eexists. split; [reflexivity|]. vm_compute. reflexivity.
+  - vm_compute. reflexivity.
+  - cbn [sm_wf_hevc]. split; [vm_compute; reflexivity|].
+    exists [1; 2; 3; 4; 5; 6; 7; 8; 9; 10; 11; 12; 13; 14; 15; 16; 0; 0]. right. left. vm_compute. reflexivity.
+Qed.
+
+(* a typed message of the OTHER codec is not lost either: avc.ParseSEINalu returns a written time code
+   as general data with its payload (by C17_nalu_written: type 136 has no decoder on the AVC path) *)
+Example C17_nalu_written_hyp :
+  let cs := [mkClock true false 0 false false false 0 false 0 false 0 false 0 5 1] in
+  parse_sei_nalu_avc APNone (6 :: write_sei_messages [mkMsg 136 (tc_size cs) (tc_payload cs)]) = POk [MRaw 136 [96; 0; 0; 161]].
+Proof. vm_compute. reflexivity. Qed.
